@@ -71,7 +71,12 @@ namespace ip {
 				typename Protocol::endpoint(addr, static_cast<unsigned short>(port))
 				, hostname, service);
 			result_t res{t, ec, std::move(ips), std::move(handler) };
-			m_queue.insert(m_queue.begin(), std::move(res));
+			// literals are served ahead of pending host name lookups, but not
+			// ahead of anything that's due earlier (an older literal for instance)
+			auto const pos = std::upper_bound(m_queue.begin(), m_queue.end(), t
+				, [](chrono::high_resolution_clock::time_point const& lhs, result_t const& rhs)
+				{ return lhs < rhs.completion_time; });
+			m_queue.insert(pos, std::move(res));
 			m_timer.expires_at(m_queue.front().completion_time);
 			m_timer.async_wait(aux::make_malloc(std::bind(&basic_resolver::on_lookup, this, _1)));
 			return;
